@@ -179,6 +179,7 @@ type gffOpts struct {
 	WithFasta      bool `json:"with_fasta"`      // emit ##FASTA section
 	GeneRows       bool `json:"gene_rows"`       // emit extra non-CDS rows (gene), which must be ignored
 	SortRows       bool `json:"sort_rows"`       // rows in coordinate order: rows sharing an ID are no longer adjacent
+	NoFinalNL      bool `json:"no_final_newline"` // the file's last line (a feature line when there is no ##FASTA section) is not terminated
 	ParentAttr     bool `json:"parent_attr"`     // NCBI style: CDS rows carry Parent=gene-k (two neighbouring features share one gene) and further attributes
 }
 
@@ -268,6 +269,9 @@ func (a Anno) renderGFF(o gffOpts) string {
 			}
 			sb.WriteString(a.Ref[i:j] + "\n")
 		}
+	}
+	if o.NoFinalNL {
+		return strings.TrimSuffix(sb.String(), "\n")
 	}
 	return sb.String()
 }
